@@ -60,6 +60,66 @@ fn boolop(op: &str) -> BooleanOperator {
     match op { "and" => BooleanOperator::And, "or" => BooleanOperator::Or, "nand" => BooleanOperator::Nand, "nor" => BooleanOperator::Nor, "xor" => BooleanOperator::Xor, "equiv" => BooleanOperator::Equiv, "imp" => BooleanOperator::Imp, _ => BooleanOperator::ImpStrict }
 }
 
+/// groups that need only `BooleanFunction` (used for ZBDDs, which have no quantification/substitution API)
+fn run_basic<F>(kind: &str, group: &str, vars: Vec<F>)
+where F: BooleanFunction, for<'id> F::Manager<'id>: Manager {
+    let all: Vec<F> = (0..=FULL).map(|t| build(&vars, t)).collect();
+    let mut checked = 0u64;
+    for t in 0..=FULL { if table(&all[t as usize]) != t { fail(kind, "build(var,not,and,or)+eval", vec![("f".into(), bits(t))], bits(t), bits(table(&all[t as usize]))); } }
+    match group {
+        "bin" => {
+            for a in 0..=FULL { for b in 0..=FULL { for op in BINOPS {
+                let r = apply_bin(op, &all[a as usize], &all[b as usize]);
+                checked += 1;
+                let e = binop(op, a, b);
+                if table(&r) != e || r != all[e as usize] { fail(kind, op, vec![("f".into(), bits(a)), ("g".into(), bits(b))], bits(e), bits(table(&r))); }
+            } } }
+            for a in 0..=FULL { let r = all[a as usize].not().unwrap(); checked += 1; if r != all[(FULL & !a) as usize] { fail(kind, "not", vec![("f".into(), bits(a))], bits(FULL & !a), bits(table(&r))); } }
+        }
+        "ite" => {
+            for a in 0..=FULL { for b in 0..=FULL { for c in 0..=FULL {
+                let r = all[a as usize].ite(&all[b as usize], &all[c as usize]).unwrap();
+                checked += 1;
+                let e = (a & b) | (FULL & !a & c);
+                if r != all[e as usize] { fail(kind, "ite", vec![("f".into(), bits(a)), ("g".into(), bits(b)), ("h".into(), bits(c))], bits(e), bits(table(&r))); }
+            } } }
+        }
+        _ => { println!("{{\"found\":false,\"error\":\"group not available for this kind\"}}"); return; }
+    }
+    println!("{{\"found\":false,\"checked\":{}}}", checked);
+}
+
+/// ZBDD set-family operations against the family-as-bitmask oracle (bit a of the table = subset a is a member)
+fn run_vecset(vars_n: usize) {
+    use oxidd::zbdd::ZBDDFunction;
+    use oxidd::BooleanVecSet;
+    let _ = vars_n;
+    let mref = oxidd::zbdd::new_manager(1 << 16, 1 << 10, 1);
+    let vars: Vec<ZBDDFunction> = mref.with_manager_exclusive(|m| m.add_vars(NV as u32).map(|v| ZBDDFunction::var(m, v).unwrap()).collect());
+    let all: Vec<ZBDDFunction> = (0..=FULL).map(|t| build(&vars, t)).collect();
+    let mut checked = 0u64;
+    for a in 0..=FULL { for b in 0..=FULL {
+        let (f, g) = (&all[a as usize], &all[b as usize]);
+        for (name, r, e) in [("union", f.union(g).unwrap(), a | b), ("intsec", f.intsec(g).unwrap(), a & b), ("diff", f.diff(g).unwrap(), a & !b & FULL)] {
+            checked += 1;
+            if r != all[e as usize] { fail("zbdd", name, vec![("f".into(), bits(a)), ("g".into(), bits(b))], bits(e), bits(table(&r))); }
+        }
+    } }
+    for a in 0..=FULL { for v in 0..NV {
+        let f = &all[a as usize];
+        let mut e1 = 0; let mut e0 = 0; let mut ec = 0;
+        for s in 0..NA {
+            if (s >> v) & 1 == 0 { if (a >> (s | (1 << v))) & 1 == 1 { e1 |= 1 << s; } if (a >> s) & 1 == 1 { e0 |= 1 << s; } }
+            if (a >> (s ^ (1 << v))) & 1 == 1 { ec |= 1 << s; }
+        }
+        for (name, r, e) in [("subset1", f.subset1(v as u32).unwrap(), e1), ("subset0", f.subset0(v as u32).unwrap(), e0), ("change", f.change(v as u32).unwrap(), ec)] {
+            checked += 1;
+            if r != all[e as usize] { fail("zbdd", name, vec![("f".into(), bits(a)), ("var".into(), v.to_string())], bits(e), bits(table(&r))); }
+        }
+    } }
+    println!("{{\"found\":false,\"checked\":{}}}", checked);
+}
+
 fn run_boolean<F>(kind: &str, group: &str, vars: Vec<F>)
 where F: BooleanFunction + BooleanFunctionQuant + FunctionSubst, for<'id> F::Manager<'id>: Manager {
     let all: Vec<F> = (0..=FULL).map(|t| build(&vars, t)).collect();
@@ -221,6 +281,12 @@ fn main() {
             let mref = oxidd::zbdd::new_manager(1 << 16, 1 << 10, 1);
             let vars: Vec<oxidd::zbdd::ZBDDFunction> = mref.with_manager_exclusive(|m| m.add_vars(NV as u32).map(|v| oxidd::zbdd::ZBDDFunction::var(m, v).unwrap()).collect());
             (mref, vars) }),
+        "zbdd" if group == "vecset" => run_vecset(NV),
+        "zbdd" => {
+            let mref = oxidd::zbdd::new_manager(1 << 16, 1 << 10, 1);
+            let vars: Vec<oxidd::zbdd::ZBDDFunction> = mref.with_manager_exclusive(|m| m.add_vars(NV as u32).map(|v| oxidd::zbdd::ZBDDFunction::var(m, v).unwrap()).collect());
+            run_basic(kind, group, vars);
+        }
         "bdd" => {
             let mref = oxidd::bdd::new_manager(1 << 16, 1 << 10, 1);
             let vars: Vec<oxidd::bdd::BDDFunction> = mref.with_manager_exclusive(|m| m.add_vars(NV as u32).map(|v| oxidd::bdd::BDDFunction::var(m, v).unwrap()).collect());
